@@ -32,6 +32,7 @@ type frame struct {
 	caller           *frame
 	fn               *ssa.Function
 	block, prevBlock *ssa.BasicBlock
+	phiOverride      map[*ssa.Phi]value // set by if-conversion: merged values for the join block's phis
 	env              map[ssa.Value]value
 	locals           []value
 	defers           *deferred
@@ -52,6 +53,8 @@ type interp struct {
 	inited   map[*ssa.Package]bool
 	steps    int64
 	curFrame *frame
+	spec     int // >0: executing an arm speculatively (zifconv.go); decisions abort
+	ifPlans  map[*ssa.If]*ifConvPlan
 	errType  types.Type
 	funcs    map[string]bool // functions executed (coverage report)
 	onceDone map[*value]bool
@@ -272,6 +275,9 @@ func (i *interp) visitInstr(fr *frame, instr ssa.Instruction) continuation {
 	case *ssa.If:
 		succ := 1
 		cond := fr.get(instr.Cond).(*term.T)
+		if i.cfg.IfConv && !cond.IsTrue() && !cond.IsFalse() && i.ifConvert(fr, instr, cond) {
+			return kJump
+		}
 		if i.decide(cond, "if") {
 			succ = 0
 		}
@@ -665,6 +671,12 @@ func (i *interp) executePhis(fr *frame) []ssa.Instruction {
 		}
 		for k, phi := range phis {
 			fr.env[phi.(*ssa.Phi)] = fr.phitemps[k]
+		}
+		if fr.phiOverride != nil {
+			for phi, v := range fr.phiOverride {
+				fr.env[phi] = v
+			}
+			fr.phiOverride = nil
 		}
 	}
 	return nonPhis
